@@ -26,7 +26,24 @@ ARB_CAP = {'quick': 60, 'thorough': 600}
 
 
 def items(tier, seed):
-    return dsw.design_items(STRATA, tier, seed, QUICK_CAPS, extra={'seed': seed})
+    out = dsw.design_items(STRATA, tier, seed, QUICK_CAPS, extra={'seed': seed})
+    # the same single-block designs with a weighted basic factor, plus a continuous factor X in the design (quick: first 40)
+    extra = []
+    for it in out:
+        b = it['spec']['block']
+        if b['op'] == 'cross' and any('deps' not in f and any(w > 1 for _, w in f['levels']) for f in it['spec']['factors']):
+            extra.append(dict(it, continuous=True))
+    return out + (extra[:40] if tier == 'quick' else extra)
+
+
+def build_with_continuous(spec):
+    import sweetpea as sp
+    from vt import build as B
+    objs = B.build_factors(spec)
+    b = spec['block']
+    X = sp.ContinuousFactor('X', distribution=sp.UniformDistribution(0.0, 1.0))
+    cs = [B.build_constraint(c, objs) for c in b.get('constraints', [])]
+    return sp.CrossBlock([objs[n] for n in b['design']] + [X], [objs[n] for n in b['crossing']], cs, b.get('rcc', True))
 
 
 def check_conversions(block, design, exps, sig, viols, spec):
@@ -90,8 +107,11 @@ def run_item(item):
     hidden = any(isinstance(f.name, HiddenName) for f in c.block.design)
     implied = len(getattr(c.block, 'act_design', [])) < len(c.block.design)
     # (a) synthesized
+    cont = bool(item.get('continuous'))
+    if cont:
+        design = design + ['X']
     for g in ('sat', 'rnd'):
-        block = dsw.rebuild(c)
+        block = core.quiet(build_with_continuous, spec) if cont else dsw.rebuild(c)
         exps, e, out = dsw.synth(block, 3, g)
         if e is not None or not exps:
             continue
@@ -104,6 +124,10 @@ def run_item(item):
             continue
         states += 1
         calls += check_conversions(block, design, exps, sig, viols, spec)
+    if cont:
+        if viols:
+            return core.bad(viols[:6], states=max(1, states), transitions=max(1, calls), nontrivial=True, outcome=[len(design), hidden, 'continuous'])
+        return core.ok(states=max(1, states), transitions=max(1, calls), validated=states, nontrivial=True, outcome=[len(design), hidden, 'continuous'])
     # (b) arbitrary well-formed lists, every key order
     block = dsw.rebuild(c)
     per_trial = list(itertools.product(*[[l for l, _ in fm[n]['levels']] for n in design]))
